@@ -363,15 +363,15 @@ class penningtrap(Problem):
         for n in range(N):
             a = old_parts.q[n] / old_parts.m[n]
 
-            c[:, n] += dt / 2 * a * np.cross(old_parts.vel[:, n], old_fields.magn[:, n] - new_fields.magn[:, n])
+            cn = c[:, n] + dt / 2 * a * np.cross(old_parts.vel[:, n], old_fields.magn[:, n] - new_fields.magn[:, n])
 
             # pre-velocity, separated by the electric forces (and the c term)
-            vm = old_parts.vel[:, n] + dt / 2 * a * Emean[:, n] + c[:, n] / 2
+            vm = old_parts.vel[:, n] + dt / 2 * a * Emean[:, n] + cn / 2
             # rotation
             t = dt / 2 * a * new_fields.magn[:, n]
             s = 2 * t / (1 + np.linalg.norm(t, 2) ** 2)
             vp = vm + np.cross(vm + np.cross(vm, t), s)
             # post-velocity
-            vel[:, n] = vp + dt / 2 * a * Emean[:, n] + c[:, n] / 2
+            vel[:, n] = vp + dt / 2 * a * Emean[:, n] + cn / 2
 
         return vel
